@@ -15,10 +15,13 @@ type Scenario struct {
 	Cost   CostModel              `json:"cost"`
 	Config map[string]interface{} `json:"config,omitempty"`  // engine configuration fields set directly
 	PollUs int64                  `json:"poll_us,omitempty"` // GUI polling period while waiting
-	Steps  []Step                 `json:"steps,omitempty"`
-	Game   *GameSpec              `json:"game,omitempty"`
-	Book   *BookSpec              `json:"book,omitempty"`
-	TT     *TTSpec                `json:"tt,omitempty"`
+	// Procs > 0: GOMAXPROCS for this run (only scenario kinds whose harness
+	// needs no lock-free discipline on engine goroutines, i.e. "tt")
+	Procs int       `json:"procs,omitempty"`
+	Steps []Step    `json:"steps,omitempty"`
+	Game  *GameSpec `json:"game,omitempty"`
+	Book  *BookSpec `json:"book,omitempty"`
+	TT    *TTSpec   `json:"tt,omitempty"`
 	// Checks selects oracle groups (e.g. "c12", "c05", "c13", "c16"); empty = those of Prop.
 	Checks []string `json:"checks,omitempty"`
 	// Expect is filled by the driver when a scenario is stored as a replay file.
